@@ -4,6 +4,8 @@ Scipy sparse linear solver with SuperLU backend.
 
 import numpy as np
 
+from kvxopt import matrix
+
 from scipy.sparse import csc_matrix
 from scipy.sparse.linalg import spsolve, splu
 
@@ -75,6 +77,14 @@ class SpSolve(SciPySolver):
         """
 
         A_csc = spmatrix_to_csc(A)
+
+        # a ``kvxopt.matrix`` right-hand side, possibly with multiple columns, is solved in place,
+        # which is what the SuiteSparse solvers do and what callers such as ``EIG`` rely on
+        if isinstance(b, matrix):
+            x = spsolve(A_csc, np.array(b))
+            b[:, :] = matrix(np.reshape(x, b.size))
+            return np.ravel(b)
+
         b = np.ravel(b)
         return spsolve(A_csc, b)
 
